@@ -124,7 +124,20 @@ func (f *RawMessageFilter) ConsumeCacheMessages(consensusMessagesHandler Consens
 			// the cached messages completed this height and a later term has taken over: the rest is history
 			break
 		}
-		f.processConsensusMessage(message)
+		f.processCachedMessage(message)
 	}
 	delete(f.futureCache, height)
+}
+
+// processCachedMessage handles one message taken from the future cache. Its content is untrusted and its
+// nested parts are only parsed while it is being handled, which happens outside the worker's per-message
+// recovery (the cache is drained while a new term starts): a malformed message is dropped here instead of
+// panicking into the loop that started the term.
+func (f *RawMessageFilter) processCachedMessage(message interfaces.ConsensusMessage) {
+	defer func() {
+		if r := recover(); r != nil {
+			f.logger.Error("LHFILTER LHMSG IGNORING MALFORMED CACHED MESSAGE - %v", r)
+		}
+	}()
+	f.processConsensusMessage(message)
 }
